@@ -31,10 +31,10 @@ ASSUMPTIONS = ['sys.monitoring PY_START callbacks may raise into the monitored f
                '(minus prec_to_dps/dps_to_prec) plus hypsum/hypercomb/quadrature summation; faults between two such entries are not injected',
                'the number of crash points N of a call is measured on an undisturbed run after one warm-up run (caches filled)',
                'leak attribution (mechanism key) uses the caller frame of the precision setter; the verdict itself only compares states']
-SHARD_TIMEOUT = {'quick': 600, 'thorough': 3000}
+SHARD_TIMEOUT = {'quick': 1200, 'thorough': 3600}
 LEVEL_TEXT = ('fault enumeration: for every listed entry point, argument set and start precision the crash points k = 1..N are '
               'enumerated completely when N <= 400 (thorough: three fault kinds at every k; quick: interrupt at every k and one '
-              'Exception-class fault alternating by k), a stratified sample of k above 400; callbacks raise at their k-th call '
+              'Exception-class fault alternating by k), a stratified sample of k (80 quick / 200 thorough strata + both ends) above 400; callbacks raise at their k-th call '
               'for k = 1..24, 40, 80, 160 (thorough: 1..64 and a stratified sample); cells that exceed the per-cell time cap '
               'are counted as cut in monitor_events; state at exit is compared with state at entry on every run')
 LEVEL_NOTE = ('not a proof: faults are injected only at entries of the listed primitives, argument values are samples, '
@@ -47,7 +47,7 @@ ROT = [('prec', 53), ('prec', 54), ('prec', 1000), ('prec', 3), ('dps', 15), ('d
 DPS_ROT = [('dps', 15), ('dps', 30), ('dps', 7), ('dps', 50)]
 
 CAPS = {'quick': {'case': 2.0, 'cell': 2.5, 'complete': 400, 'sample': 80, 'cbmax': 24, 'cbcell': 6.0},
-        'thorough': {'case': 10.0, 'cell': 25.0, 'complete': 400, 'sample': 400, 'cbmax': 64, 'cbcell': 60.0}}
+        'thorough': {'case': 10.0, 'cell': 12.0, 'complete': 400, 'sample': 200, 'cbmax': 64, 'cbcell': 40.0}}
 
 FP_SHARDS = {'quick': 16, 'thorough': 40}
 CB_SHARDS = {'quick': 5, 'thorough': 6}
@@ -357,7 +357,6 @@ def run_fp(shard, rec, env):
             if not hasattr(env.ctx['mp'], T.EXTRAS[a][0]):
                 continue
             fp_cell(env, 'mp', a, mk_extra_call(a), {'section': 'failpoint', 'extra': a}, precsets_for(tier, idx, seed), r)
-    rec.event('entry points covered by failpoint enumeration', sum(1 for k in rec.classes if k.startswith('entry/')))
 
 
 # ---------------------------------------------------------------------------------------
